@@ -5,6 +5,8 @@
 mod ops_gen;
 mod extra;
 mod hard;
+mod hard16;
+mod scan;
 use std::io::{self, BufRead, Write};
 use std::panic::{catch_unwind, AssertUnwindSafe};
 use std::sync::atomic::{AtomicU64, Ordering};
@@ -12,6 +14,15 @@ use std::sync::Arc;
 
 fn main() {
     let argv: Vec<String> = std::env::args().collect();
+    if argv.len() == 4 && argv[1] == "--scan" {
+        let op = scan::OPS.iter().find(|o| **o == argv[2]).expect("unknown scan op");
+        scan::scan(op, argv[3].parse().unwrap());
+        return;
+    }
+    if argv.len() == 4 && argv[1] == "--p16-scan" {
+        hard16::p16_scan(argv[2].parse().unwrap(), argv[3].parse().unwrap());
+        return;
+    }
     if argv.len() == 3 && argv[1] == "--sqrt-scan" {
         hard::sqrt_scan(argv[2].parse().unwrap());
         return;
